@@ -441,6 +441,16 @@ func (e *env) modify(s *session, st *Step) {
 		return
 	}
 	simrt.AwaitQuiescence("modify")
+	// (an earlier session that is still connected may be sent the results of operations it left held, if a
+	// server routes them to their owner: read those streams first, their effects precede what follows)
+	for _, o := range e.sess {
+		if o != s && o.mc != nil && !o.dead && !o.closed && e.sc.Family == "g1" {
+			if rs, _ := e.drain(o); len(rs) > 0 {
+				e.probe("results delivered on the stream of an earlier, still connected session")
+				e.processResults(o, rs)
+			}
+		}
+	}
 	e.drainAndProcess(s)
 	e.afterQuiescence(s)
 	e.invalidKeys = nil
